@@ -245,6 +245,11 @@ TyExprs(t) ==
             <<Cast(Col(c), "int"), Cast(Col(c), "float"), Fn2("add", Col(c), Col(c)), Agg("sum", Col(c)), Agg("any", Col(c)),
               Fn1("not", Col(c)), Fn2("and", Col(c), LitB(TRUE)), Fn2("fill_null", Col(c), LitB(FALSE))>>))
         \o Flat(MapS(a, LAMBDA c : MapS(fv, LAMBDA f : Fn2("add", Col(c), Col(f)))))
+        \o Flat(MapS(a, LAMBDA c : Flat(MapS(bv, LAMBDA p :       \* window functions over a boolean column, both directions, with and without fill
+              <<Shift(Col(p), -1, <<LitB(FALSE)>>, <<Ord(Col(c), FALSE, "first"), Ord(Col(p), FALSE, "last")>>),
+                Shift(Col(p), 1, <<LitB(TRUE)>>, <<Ord(Col(c), FALSE, "first"), Ord(Col(p), FALSE, "last")>>),
+                Shift(Col(p), -1, <<>>, <<Ord(Col(c), FALSE, "first"), Ord(Col(p), FALSE, "last")>>),
+                Shift(Col(c), -1, <<LitI(0)>>, <<Ord(Col(c), FALSE, "first"), Ord(Col(p), FALSE, "last")>>)>>))))
         \o <<LitI(3), LitB(TRUE), LitN>>
 
 MovesTy(h, kn) ==
@@ -256,6 +261,13 @@ MovesTy(h, kn) ==
         isAgg(e) == e.k = "agg"
     IN  MapS(te, LAMBDA e : MMutate(i, <<KV("x", e)>>))
         \o MapS(SelectSeq(te, isAgg), LAMBDA e : MSummarize(i, <<KV("s", e)>>))
+        \o (IF t.part # <<>> /\ iv # <<>>           \* a grouping column next to an aggregate, through a cast / a case expression
+            THEN LET gc == Col(t.part[1])
+                     x  == Col(IF Len(iv) >= 2 /\ iv[1] = t.part[1] THEN iv[2] ELSE iv[1])
+                 IN <<MSummarize(i, <<KV("s", Fn2("add", Agg("sum", x), Cast(gc, "float")))>>),
+                      MSummarize(i, <<KV("s", Case1D(Fn2("gt", gc, LitI(1)), Agg("sum", x), LitI(0)))>>),
+                      MSummarize(i, <<KV("s", Fn2("add", Agg("max", x), gc))>>)>>
+            ELSE <<>>)
         \o MapS(Take(gp, 1), LAMBDA c : MGroupBy(i, <<Col(c)>>, FALSE))
         \o <<MCollect(i, TRUE)>>
 
